@@ -32,6 +32,8 @@ pub fn run_check(prop: &str, tier: Tier, seed: u64) -> i32 {
         "C07" => c07(tier, seed),
         "C08" => c08(tier, seed),
         "C04" => c04(tier, seed),
+        "C01" => c01(tier, seed),
+        "C02" => c02(tier, seed),
         other => harness_error(&format!("no check registered for {other}")),
     }
 }
@@ -48,6 +50,8 @@ pub fn replay(doc: &J) -> i32 {
         "C09" => crate::driver::replay::<crate::props_sched_adapt::WindowScenario>(doc),
         "C07" | "C08" => crate::driver::replay::<crate::props_adapt::AdaptScenario>(doc),
         "C04" => crate::driver::replay::<crate::props_posterior::PosteriorScenario>(doc),
+        "C01" => crate::driver::replay::<crate::props_c01::NutsScenario>(doc),
+        "C02" => crate::driver::replay::<crate::props_c01::LeapfrogScenario>(doc),
         other => harness_error(&format!("replay: unknown property {other}")),
     }
 }
@@ -777,5 +781,35 @@ fn c04(tier: Tier, seed: u64) -> i32 {
     ctx.finish("exploration", components_engine_a_math(), vec![
         "no schedule and no fault in this property: the family contributes seeded repeatability and the momentum seam (weak fit, DESIGN.md §5 C04)".into(),
         "thresholds at a two-sided level of 1e-7 per statistic with between-chain standard errors (valid whatever the autocorrelation); a behaviour-preserving change that reshuffles the random stream cannot plausibly trip it; small biases below ~1 standard error of 32 chains x 4000 draws are not detectable".into(),
+    ], json!({}))
+}
+
+pub fn components_direct_drive() -> J {
+    json!({
+        "real_code": ["nuts::draw (tree building, merges, U-turn checks, selection), TransformedHamiltonian::{init_state, initialize_trajectory, leapfrog, is_turning}, DiagMassMatrix / LowRankMassMatrix transformation maps, CpuMath kernels — called through the hook-H3 direct-drive entry points with an explicit transformation"],
+        "stubs": ["density (harness targets with exact gradients)"],
+        "seams": ["every random decision is scripted: doubling directions and selection thresholds by a scripted random number generator handed to nuts::draw, the momentum by the delegating Math wrapper's array_gaussian", "trajectory tap (hook H3): every state the integrator visits, in generation order"],
+    })
+}
+
+fn c01(tier: Tier, seed: u64) -> i32 {
+    use crate::props_c01::gen_nuts_scenario;
+    let mut ctx = Ctx::new("C01", tier, seed);
+    let n = ctx.n(4000, 400_000);
+    ctx.run_batch("scripted_transitions", "scenario = target (Gaussians, Student-t, banana; dimension 1..8) x explicit diagonal or low-rank transformation (rank 0..d, random orthonormal eigenvectors) x Euclidean / ExactNormal x step size x maxdepth 1..6 x start x scripted momentum x scripted raw direction draws (incl. boundary values) x scripted selection thresholds. R1: from every state of the final block the real nuts::draw is re-run with the mirrored doubling choices and must visit the same states with the same depth and stopping reason; R2: with the same scripted thresholds the implementation selects the index the reference selection law (min(1, w_new/w_old) for the tree holding the start, w_new/(w_old+w_new) in sub-trees) selects; the sequence of random draws is the predicted one; R3: direction = sign bit of the raw uniform u32; tree building equals RefNuts (Appendix A). Divergent trajectories are outside the quantifier and skipped; near-ties skipped and counted. Non-trivial = depth >= 2", n, |rs, _| gen_nuts_scenario(rs));
+    ctx.finish("exploration", components_direct_drive(), vec![
+        "given R1-R3 the implementation's kernel is the reference kernel on the explored scenarios; detailed balance of the reference kernel is the algebra of DESIGN.md Appendix A".into(),
+        "tolerance for 'same states' 1e-7 x trajectory length (forward and backward integration are not bitwise inverse)".into(),
+    ], json!({}))
+}
+
+fn c02(tier: Tier, seed: u64) -> i32 {
+    use crate::props_c01::gen_leapfrog_scenario;
+    let mut ctx = Ctx::new("C02", tier, seed);
+    let n = ctx.n(6000, 600_000);
+    ctx.run_batch("leapfrog_sequences", "sequences of 2..8 single leapfrog steps (both signs) of the real Hamiltonian::leapfrog from a scripted momentum, for explicit diagonal / low-rank transformations (dimension 1..64, rank 0..d), Euclidean and ExactNormal kinetic energy; every visited state (trajectory tap) is compared with a dense-matrix reference: x = F(y) + mu (inverse consistent with forward map), gradient pull-back F^T grad, documented log-determinant, energy = 1/2|v|^2 - logp - logdet, each step = textbook leapfrog in the original space for M^-1 = F F^T (ExactNormal: residual kick / rotation / kick), forward+backward returns the start, ExactNormal conserves the energy on a standard normal", n, |rs, _| gen_leapfrog_scenario(rs));
+    ctx.finish("exploration", components_direct_drive(), vec![
+        "weak fit for the family (pure function of its inputs except the re-derivation of whitened coordinates after a transformation change, which C03's next-trajectory oracle covers in adaptive chains); the simulator contributes the scripted momentum and the tap".into(),
+        "volume preservation and the O(eps^2) order follow from equality with the textbook map and are not measured".into(),
     ], json!({}))
 }
